@@ -29,6 +29,8 @@ class SlotInfo:
         self.ty = t[2]
         self.kind = t[3]
         self.p = t[4:]
+        if self.p and self.p[-1] == "ctl":
+            self.p = self.p[:-1]   # model-side flag (FFT data plane off), not a constructor argument
         self.g = None          # getters after the last op
         self.alive = False
         self.ratios = []       # accepted ratio values since (re)start: (value, ramp)
@@ -453,6 +455,14 @@ class C10(Prop):
             if rng.random() < 0.4:
                 ops.append("0 proc - n-1 n i")
                 feats.add("failed")
+            if cfg.nch >= 2 and rng.random() < 0.5:
+                # the LAST call before the reset leaves some channels out (their stored state must be cleared too)
+                m = gen.rand_mask(rng, cfg.nch, allow_all_false=False)
+                while m == "-" or "0" not in m:
+                    m = "".join(rng.choice("01") for _ in range(cfg.nch))
+                ops.append(f"0 proc - n m r{rng.randint(0, 999)}")
+                ops.append(f"0 proc {m} n m r{rng.randint(0, 999)}")
+                feats.add("masked-last-call")
             if cfg.kind in gen.ASYNC and cfg.maxrel > 1.0 and rng.random() < 0.5:
                 r, rel = gen.in_range_ratio(rng, cfg, calm=True)
                 ops.append(f"0 ratio {hx(r)} 1")
@@ -460,7 +470,8 @@ class C10(Prop):
             reset_at = len(ops)
             ops.append("0 reset")
             ops.append(cfg.new(1))
-            post = gen.gen_valid_history(rng, cfg, rng.randint(3, 15), ratio_changes="calm", masks="const")
+            post = gen.gen_valid_history(rng, cfg, rng.randint(3, 15), ratio_changes="calm",
+                                         masks=rng.choice(["const", "none"]))
             pairs = 0
             for op in post.ops[1:]:
                 ops.append(op)
@@ -818,12 +829,22 @@ class C16(Prop):
                     a, b, f = f"partw {mask} none {sg}{dy}", f"proc {mask} n n z", "process_partial-none"
                 elif c < 0.9:
                     a, b, f = f"proc {mask} n m {sg} dyn", f"proc {mask} n m {sg}", "dyn-forward"
+                elif c < 0.93:
+                    a, b, f = "get dyn", "get", "dyn-getters"
+                elif c < 0.95:
+                    a, b, f = "bufs dyn", "bufs", "dyn-allocate"
                 else:
+                    # every setter of the wrapper trait, absolute and relative, ramped or not (the FFT types answer
+                    # SyncNotAdjustable on both paths)
+                    ramp = rng.choice([0, 1])
                     if cfg.kind in gen.ASYNC and cfg.maxrel > 1:
                         r, rel = gen.in_range_ratio(rng, cfg, calm=True)
-                        a, b, f = f"ratio {hx(r)} 0 dyn", f"ratio {hx(r)} 0", "dyn-setter"
                     else:
-                        a, b, f = "get", "get", "get"
+                        r, rel = cfg.ratio if cfg.kind in gen.ASYNC else 1.0, 1.0
+                    if rng.random() < 0.5:
+                        a, b, f = f"ratio {hx(r)} {ramp} dyn", f"ratio {hx(r)} {ramp}", "dyn-setter"
+                    else:
+                        a, b, f = f"rel {hx(rel)} {ramp} dyn", f"rel {hx(rel)} {ramp}", "dyn-setter-relative"
                 if mask != "-":
                     feats.add("masked")
                 feats.add(f)
@@ -1231,6 +1252,27 @@ def valid_mix(self, rng, n, kinds=gen.ALL, long=False):
                                   masks=rng.choice(["none", "const", "vary"]))
         h.meta["osf1_poly"] = osf1
         hs.append(h)
+        if cfg.kind in gen.ASYNC and cfg.maxrel > 1.0 and not osf1 and rng.random() < 0.35:
+            # reset / chunk-size change while the ratio differs from the construction ratio, then several calls:
+            # every size the resampler recomputes at that point must fit the ratio it continues with
+            ops = [cfg.new(0)] + ["0 proc - n m i"] * rng.randint(0, 3)
+            feats = set()
+            for _ in range(rng.randint(1, 3)):
+                calm = cfg.kind in ("fastin", "sincin") or rng.random() < 0.5
+                r, rel = gen.in_range_ratio(rng, cfg, calm=calm)
+                ramp = rng.choice([0, 1])
+                ops.append(f"0 ratio {hx(r)} {ramp}")
+                feats.add("ratio-ramp" if ramp else "ratio-step")
+                ops += ["0 proc - n m i"] * rng.randint(0, 2)
+            if cfg.kind in ("sincin", "sincout") and rng.random() < 0.5:
+                ops.append(f"0 chunk {rng.randint(1, cfg.chunk)}")
+                feats.add("chunk")
+            else:
+                ops.append("0 reset")
+                feats.add("reset")
+            ops += ["0 proc - n m i"] * rng.randint(2, 5)
+            hs.append(History(ops, {"cfg": cfg.line, "kind": cfg.kind, "ty": cfg.ty, "feats": sorted(feats),
+                                    "osf1_poly": False}))
     return hs
 
 
@@ -1290,13 +1332,47 @@ class C04(Prop):
     n_thorough = 12000
 
     def scenarios(self, rng):
-        return valid_mix(self, rng, self.n)
+        hs = valid_mix(self, rng, self.n)
+        # "consumes exactly input_frames_next() frames": twins fed the same signal, slot 0 through buffers that are longer
+        # than needed (the frames beyond the reported count are the true next frames of the signal, handed over again by
+        # the next call), slot 1 through exact-length buffers; outputs and counts must be bit-identical
+        for i in range(max(8, self.n // 4)):
+            cfg = gen.gen_cfg(rng, max_chunk=400, probe=rng.random() < 0.5)
+            sg = rng.choice(["i", "r%d" % rng.randint(0, 999)])
+            ops = [cfg.new(0), cfg.new(1)]
+            pairs = []
+            for _ in range(rng.randint(3, 14)):
+                c = rng.random()
+                if c < 0.12 and cfg.kind in gen.ASYNC and cfg.maxrel > 1:
+                    r, rel = gen.in_range_ratio(rng, cfg, calm=True)
+                    ramp = rng.choice([0, 1])
+                    ops += [f"0 ratio {hx(r)} {ramp}", f"1 ratio {hx(r)} {ramp}"]
+                elif c < 0.2 and cfg.kind in ("sincin", "sincout"):
+                    n = rng.randint(1, cfg.chunk)
+                    ops += [f"0 chunk {n}", f"1 chunk {n}"]
+                else:
+                    big = rng.choice(["n+1", "n+%d" % rng.randint(2, 700), "m", "m+%d" % rng.randint(1, 2000)])
+                    pairs.append(len(ops))
+                    ops += [f"0 proc - {big} m {sg}", f"1 proc - n m {sg}"]
+            hs.append(History(ops, {"cfg": cfg.line, "kind": cfg.kind, "ty": cfg.ty, "feats": ["oversized-twin", "part"],
+                                    "twin_pairs": pairs}))
+        return hs
 
     def nontrivial(self, h):
         return bool(set(h.meta.get("feats", [])) & {"ratio-ramp", "ratio-step", "chunk", "part"})
 
     def oracle(self, h):
         out = []
+        infos = {}
+        for k in h.meta.get("twin_pairs", []):
+            ra, rb = h.real[k], h.real[k + 1]
+            if "skip" in (ra, rb):
+                break
+            fa, fb = fields(ra), fields(rb)
+            if fa["status"] != fb["status"] or fa["g"] != fb["g"] or fa["d"] != fb["d"]:
+                out.append(viol("C04", h, k, SlotInfo(h.ops[0]), "frames-beyond-reported-count-influence-the-output",
+                                {"oversized": ra[:200], "exact": rb[:200]}))
+                return out
         for k, slot, name, t, fr, fm, info, gb in walk(h):
             if fr is None or info is None:
                 continue
@@ -1363,7 +1439,8 @@ class C07(Prop):
             small = rng.random() < 0.4
             cfg = gen.gen_cfg(rng, max_chunk=(8 if small else 300), probe=True)
             nops = rng.randint(40, 400) if self.tier == "quick" else rng.randint(200, 20000 if small else 3000)
-            ops = [cfg.new(0)]
+            # frame accounting only: the model's FFT data plane is switched off for these long streams (`ctl`)
+            ops = [cfg.new(0) + (" ctl" if cfg.kind in gen.FFT else "")]
             feats = set()
             for _ in range(nops):
                 c = rng.random()
@@ -1378,10 +1455,15 @@ class C07(Prop):
             if small:
                 feats.add("tiny-chunks")
             hs.append(History(ops, {"cfg": cfg.line, "kind": cfg.kind, "ty": cfg.ty, "feats": sorted(feats)}))
+        # block-size arithmetic of the synchronous types: many (rate pair, request size) combinations, a few calls each
+        for i in range(3 * self.n):
+            cfg = gen.gen_cfg(rng, kinds=gen.FFT)
+            ops = [cfg.new(0) + " ctl"] + ["0 proc - n m z"] * rng.randint(2, 6)
+            hs.append(History(ops, {"cfg": cfg.line, "kind": cfg.kind, "ty": cfg.ty, "feats": ["fft-sizes"]}))
         return hs
 
     def nontrivial(self, h):
-        return len(h.ops) > 30
+        return len(h.ops) > 30 or "fft-sizes" in h.meta.get("feats", [])
 
     def oracle(self, h):
         from fractions import Fraction
@@ -1662,6 +1744,26 @@ class C06(Prop):
                 else:
                     ops.append("0 proc - n m i dump")
             hs.append(History(ops, {"cfg": cfg.line, "kind": kind, "ty": "f64", "feats": sorted(feats), "rc": rc}))
+        # ramps at a reduced chunk size (sinc types): the ramp must be spread over the CURRENT chunk, and the frames asked
+        # for must cover every position the ramp reaches
+        for i in range(max(6, self.n // 4)):
+            kind = rng.choice(["sincin", "sincout", "sincout"])
+            cfg = gen.gen_cfg(rng, kinds=[kind], ty="f64", nch=1, max_chunk=400, probe=True, sinc_lens=[8, 16, 32, 64],
+                              interp=rng.choice([0, 1, 2]))
+            cfg.line = cfg.line[:-len("probe")] + "lprobe"
+            if cfg.maxrel <= 1 or cfg.chunk < 8:
+                continue
+            ops = [cfg.new(0)] + ["0 proc - n m i dump"] * rng.randint(1, 4)
+            ops.append(f"0 chunk {rng.randint(1, max(1, cfg.chunk // 2))}")
+            ops += ["0 proc - n m i dump"] * rng.randint(1, 3)
+            feats = {"chunk"}
+            for _ in range(rng.randint(1, 3)):
+                r, rel = gen.in_range_ratio(rng, cfg, calm=(kind == "sincin"))
+                ops.append(f"0 ratio {hx(r)} 1")
+                feats.add("ratio-ramp")
+                ops += ["0 proc - n m i dump"] * rng.randint(1, 3)
+            hs.append(History(ops, {"cfg": cfg.line, "kind": kind, "ty": "f64", "feats": sorted(feats),
+                                    "rc": "calm" if kind == "sincin" else "any"}))
         # every generic valid history also contributes its stale-read flags
         hs += valid_mix(self, rng, self.n // 2)
         return hs
